@@ -202,8 +202,20 @@ def F14():
     return None
 
 
+def F15():
+    # heads-up, equal blinds: the small blind/button (player 1) acts first pre-flop, player 0 first on later streets
+    autos = (A.ANTE_POSTING, A.BET_COLLECTION, A.BLIND_OR_STRADDLE_POSTING, A.HOLE_DEALING, A.CARD_BURNING, A.BOARD_DEALING)
+    s = NoLimitTexasHoldem.create_state(autos, True, 0, (2, 2), 2, (50, 50), 2)
+    if s.actor_index != 1:
+        return f'pre-flop player {s.actor_index} opens, the button (player 1) must'
+    s.check_or_call(); s.check_or_call()
+    if s.actor_index != 0:
+        return f'on the flop player {s.actor_index} opens, expected player 0'
+    return None
+
+
 if __name__ == '__main__':
-    names = sys.argv[1:] or ['F1', 'F2', 'F3', 'F4', 'F5', 'F6', 'F7', 'F8', 'F9', 'F10', 'F14']
+    names = sys.argv[1:] or ['F1', 'F2', 'F3', 'F4', 'F5', 'F6', 'F7', 'F8', 'F9', 'F10', 'F14', 'F15']
     bad = 0
     for n in names:
         try:
